@@ -83,13 +83,14 @@ def mainPcName : MainPc → String
 def outcomeName : Outcome → String
   | .normal => "normal"
   | .raised k => "raised:" ++ excName k
+  | .escaped k => "raised:" ++ excName k
   | .error e => "error:" ++ e.name
 
 def isExited (c : St) : Bool := match c.main with | .exited _ => true | _ => false
 def spinAlive (c : St) : Bool := !(c.spin == .done || c.spin == .notStarted)
 
 /-- run a schedule, remembering whether the spinner was alive when main left the block -/
-def runScan (old : Bool) (cfg : Cfg) : Schedule → St → Option Bool → St × Option Bool
+def runScan (old : Proto) (cfg : Cfg) : Schedule → St → Option Bool → St × Option Bool
   | [], c, a => (c, a)
   | ch :: s, c, a =>
     let c' := stepG old cfg c ch
@@ -111,7 +112,13 @@ def handle (m : String) (j : Json) : Option (R Json) :=
       let sched ← (← fArr j "sched").toList.mapM choiceOf
       let pre ← (← fArr j "preempt").toList.mapM asNat
       let fuel ← fNat j "fuel"
-      let old ← fBool j "old"
+      -- pre-fix variants, for experiments: "old" = two writes per frame (D23), "narrow_except" = D32
+      let two ← fBool j "old"
+      let narrow ← match fOpt j "narrow_except" with
+        | none => pure false
+        | some (.bool b) => pure b
+        | some _ => .error "field narrow_except: boolean expected"
+      let old : Proto := ⟨two, narrow⟩
       let (c1, a1) := runScan old cfg sched init none
       let rest := policy old cfg fuel 0 .main pre c1
       let (c2, a2) := runScan old cfg rest c1 a1
